@@ -42,11 +42,21 @@ class LoopSpec:
     havoc_fields/havoc_ghost name what the body may change besides assigned locals;
     kinds: name->Kind for havocked locals whose kind cannot be inferred from the current value."""
 
-    def __init__(self, inv=(), havoc_fields=(), kinds=None, unroll=None, havoc_hook=None, keep=None):
+    def __init__(self, inv=(), havoc_fields=(), kinds=None, unroll=None, havoc_hook=None, keep=None, entry_hook=None,
+                 iter_hook=None, body_hook=None, modular=False, frame_fields=(), stable_locals=()):
+        # modular=True: the arbitrary iteration is verified once, in a context that contains only the contract's setup
+        # assumptions and the invariant (Hoare-style), instead of once per path that reaches the loop
+        self.modular, self.frame_fields, self.stable_locals = modular, set(frame_fields), set(stable_locals)
+        self.entry_hook = entry_hook
+        self.iter_hook = iter_hook      # called at the end of an arbitrary iteration that continues the loop
+        self.body_hook = body_hook      # called at the start of an arbitrary iteration (after the loop variable is bound)
         self.inv, self.havoc_fields, self.kinds = list(inv), list(havoc_fields), dict(kinds or {})
         self.unroll = unroll
         self.havoc_hook = havoc_hook
         self.keep = keep or {}
+
+
+MODULAR_OWNER = {}
 
 
 class Interp:
@@ -402,6 +412,77 @@ class Interp:
         if lspec.havoc_hook:
             lspec.havoc_hook(self)
 
+    def loop_choice(self, lspec, tag, ordn):
+        """True: this path explores the arbitrary-iteration branch of the loop"""
+        if not lspec.modular:
+            return self.st.choice(2, tag) == 0
+        cur = tuple((c, n) for c, n, _ in self.st.ctl.trace)
+        owner = MODULAR_OWNER.setdefault((self.spec.ident, ordn), cur)
+        if owner != cur:
+            return False
+        return self.st.choice(2, tag) == 0
+
+    def assigned_fields(self):
+        names = set()
+        for n in ast.walk(self.fnode):
+            if isinstance(n, ast.Attribute) and isinstance(n.ctx, (ast.Store, ast.Del)):
+                names.add(self.mangle(n.attr))
+            elif isinstance(n, ast.AugAssign) and isinstance(n.target, ast.Attribute):
+                names.add(self.mangle(n.target.attr))
+            elif isinstance(n, ast.Call) and isinstance(n.func, ast.Name) and n.func.id in ('setattr', 'delattr') and len(n.args) >= 2 \
+                    and isinstance(n.args[1], ast.Constant):
+                names.add(n.args[1].value)
+            elif isinstance(n, ast.Call) and isinstance(n.func, ast.Attribute) and isinstance(n.func.value, ast.Attribute):
+                # mutating method call on a field: self.f.append(...)
+                if n.func.attr in ('append', 'appendleft', 'pop', 'popleft', 'add', 'remove', 'extend', 'clear', 'update', 'discard',
+                                   'setdefault', 'insert'):
+                    names.add(self.mangle(n.func.value.attr))
+            elif isinstance(n, ast.Subscript) and isinstance(n.ctx, (ast.Store, ast.Del)) and isinstance(n.value, ast.Attribute):
+                names.add(self.mangle(n.value.attr))
+        out = set()
+        for a in names:
+            out.add(a)
+            for (c, at), f in (self.spec.field_alias or {}).items():
+                if at == a:
+                    out.add(f)
+        return {f for f in out if f in self.st.fields}
+
+    def enter_modular(self, lspec, body_nodes):
+        st = self.st
+        st.pc = st.pc[:st.setup_len]
+        st._fs = z3.Solver()
+        st._fs.set('timeout', st.opts.get('feas_timeout_ms', 150))
+        for f in st.pc:
+            st._fs.add(f)
+        hv = (self.assigned_fields() | set(lspec.havoc_fields)) - lspec.frame_fields
+        for f in sorted(hv):
+            st.havoc_field(f, lspec.keep.get(f))
+        st.modular_frame = set(st.fields) - hv
+        params = {a.arg for a in self.fnode.args.posonlyargs + self.fnode.args.args + self.fnode.args.kwonlyargs}
+        used = {n.id for b in body_nodes for n in ast.walk(b) if isinstance(n, ast.Name)}
+        env = self.frame.env
+        for nm in sorted(list(env)):
+            if nm in params or nm.startswith('__') or nm in lspec.stable_locals:
+                continue
+            cur = env[nm]
+            if isinstance(cur, (VFunc, VClass, VModule)):
+                continue
+            if nm in lspec.kinds:
+                env[nm] = lspec.kinds[nm].fresh('hv_' + nm)
+                continue
+            try:
+                k = kind_of(cur)
+                if isinstance(cur, VNone):
+                    raise Unsupported('none')
+                nv = k.fresh('hv_' + nm)
+                if getattr(cur, 'loc', None) is not None and hasattr(nv, 'loc'):
+                    nv.loc = cur.loc
+                env[nm] = nv
+            except Unsupported:
+                if nm in used:
+                    raise Unsupported('modular loop: give kinds= for local %s (value %r)' % (nm, cur))
+                del env[nm]
+
     def check_inv(self, lspec, tag, when):
         for label, f in lspec.inv:
             self.oblige('%s/inv.%s.%s' % (tag, label, when), f(self))
@@ -440,19 +521,29 @@ class Interp:
             if conc:
                 raise Unsupported('concrete while did not finish in 64 iterations')
             raise PathKill()
+        if lspec.entry_hook:
+            lspec.entry_hook(self)
         self.check_inv(lspec, tag, 'entry')
-        self.havoc_locals(s.body, lspec)
+        explore = self.loop_choice(lspec, tag, ordn)
+        if explore and lspec.modular:
+            self.enter_modular(lspec, s.body)
+        else:
+            self.havoc_locals(s.body, lspec)
         self.assume_inv(lspec)
         c = truthy(self, self.eval_cond(s.test))
-        if self.st.choice(2, tag) == 0:
+        if explore:
             # arbitrary iteration
             self.assume(c)
+            if lspec.body_hook:
+                lspec.body_hook(self)
             try:
                 self.exec_block(s.body)
             except BreakSig:
                 return
             except ContinueSig:
                 pass
+            if lspec.iter_hook:
+                lspec.iter_hook(self)
             self.check_inv(lspec, tag, 'preserved')
             raise PathKill()
         self.assume(z3.Not(c))
@@ -482,15 +573,26 @@ class Interp:
         env = self.frame.env
         if isinstance(it, VList):
             env['__idx%d' % ordn] = VInt(it.lo)
+            env['__iter%d' % ordn] = it
+            if lspec.entry_hook:
+                lspec.entry_hook(self)
             self.check_inv(lspec, tag, 'entry')
-            self.havoc_locals(s.body, lspec)
+            explore = self.loop_choice(lspec, tag, ordn)
+            if explore and lspec.modular:
+                self.enter_modular(lspec, s.body)
+                it = self.eval(s.iter)
+                env['__iter%d' % ordn] = it
+            else:
+                self.havoc_locals(s.body, lspec)
             k = core.fresh('k', z3.IntSort())
             env['__idx%d' % ordn] = VInt(k)
             self.assume(z3.And(it.lo <= k, k <= it.hi))
             self.assume_inv(lspec)
-            if self.st.choice(2, tag) == 0:
+            if explore:
                 self.assume(k < it.hi)
                 self.assign(s.target, it.at(k))
+                if lspec.body_hook:
+                    lspec.body_hook(self)
                 try:
                     self.exec_block(s.body)
                 except BreakSig:
@@ -498,6 +600,8 @@ class Interp:
                 except ContinueSig:
                     pass
                 env['__idx%d' % ordn] = VInt(k + 1)
+                if lspec.iter_hook:
+                    lspec.iter_hook(self)
                 self.check_inv(lspec, tag, 'preserved')
                 raise PathKill()
             self.assume(k == it.hi)
@@ -640,9 +744,15 @@ class Interp:
             self.write_loc(loc, new)
         # else: temporary value, mutation is unobservable
 
+    def falias(self, obj, attr):
+        if self.spec.field_alias:
+            return self.spec.field_alias.get((obj.cls, attr), attr)
+        return attr
+
     def setattr_(self, obj, attr, v):
         obj = unopt(self, obj)
         if isinstance(obj, VRef):
+            attr = self.falias(obj, attr)
             hook = self.spec.setattr_hooks.get(attr)
             if hook:
                 if hook(self, obj, v) is not False:
@@ -659,6 +769,7 @@ class Interp:
 
     def delattr_(self, obj, attr):
         if isinstance(obj, VRef):
+            attr = self.falias(obj, attr)
             k = self.st.fields.get(attr)
             if not isinstance(k, Dyn):
                 raise Unsupported('delattr of non-Dyn field %s' % attr)
@@ -676,6 +787,7 @@ class Interp:
     def getattr_(self, obj, attr, default=None, node=None):
         obj = unopt(self, obj)
         if isinstance(obj, VRef):
+            attr = self.falias(obj, attr)
             hook = self.spec.getattr_hooks.get(attr)
             if hook:
                 r = hook(self, obj)
@@ -770,6 +882,8 @@ class Interp:
         if name in self.mod.consts:
             c = self.mod.consts[name]
             return self.from_python(c)
+        if name in self.spec.classes:
+            return VClass(name)
         if name in self.spec.calls:
             return VFunc(name)
         short = name.split('.')[-1]
